@@ -142,6 +142,16 @@ def reachesRead (f d : Expr) : List Step → Bool
   | .readData c t f' d' :: _ => c == .lit .flag "true" && t == "input" && f' == f && d' == d
   | _ => false
 
+/-- a transposition step touches the input matrix or the embedding, nothing else (not the projection matrix) -/
+def transposeTargetOk : Step → Bool
+  | .transpose _ t => t == "input" || t == "output.embedding"
+  | _ => true
+
+/-- an embed step passes THE parameter set built by `tapkee::kwargs[…]` -/
+def embedParamsOk : Step → Bool
+  | .embed _ p _ _ _ _ => p == "parameters"
+  | _ => true
+
 /-- the D × N matrix the library receives, from the matrix F whose rows are the lines of the file -/
 def libraryInput {α} (transposeInputGiven : Bool) (F : DMat α) : DMat α :=
   if transposeInputGiven then F else F.transpose
